@@ -18,6 +18,7 @@ import (
 func init() {
 	register("C09", checkC09)
 	replayers["c09/block"] = replayC09
+	replayers["c09/concrete"] = replayConc
 }
 
 type c09Params struct {
@@ -405,7 +406,7 @@ func checkC09(c *Ctx) {
 	for _, op := range ops {
 		pts = append(pts, c09Points(c, op)...)
 	}
-	c.Rule = "16 block encodings x parameter lattice (the port forms also on a CPU without IO device, right after another IO-less CPU wrote to the same port number; BC in {0,1,2,3,255,256,257,65535} resp. B in {0,1,2,3,255,128}; HL/DE over W16 and neighbours; overlap distances -3..+3 at 0x4000 and across 0xFFFF; source/destination covering the instruction bytes at PC 0100/FFFE/FFFF; for searches the byte planted at position 0/1/2/last/absent x 6 A values; 3 ports; thorough: BC sweep 4..1024); each point run to completion through real Steps. Oracles: closed-form specification of the whole operation (memory image, counters, pointers, PC, flags, port transfers, number of Steps), refz80 in lock-step on every Step, per-Step one-element contract. Non-trivial: every point transfers or compares at least one element (counted)."
+	c.Rule = "16 block encodings x parameter lattice (the port forms also on a CPU without IO device, right after another IO-less CPU wrote to the same port number; BC in {0,1,2,3,255,256,257,65535} resp. B in {0,1,2,3,255,128}; HL/DE over W16 and neighbours; overlap distances -3..+3 at 0x4000 and across 0xFFFF; source/destination covering the instruction bytes at PC 0100/FFFE/FFFF; for searches the byte planted at position 0/1/2/last/absent x 6 A values; 3 ports; thorough: BC sweep 4..1024); each point run to completion through real Steps. Every point with BC < 600 again on the package's own MapMemory (destination cells written beforehand, every other source cell never written) and DumbMemory (len 65536, 65536+256, 32768) with DumbIO, handed over unwrapped vs behind opaque wrappers: same final state and device contents; single elements of all 16 encodings over the quick lattice on those device types, also with a port device that re-points CPU.Memory to another bank on every port access. Oracles: closed-form specification of the whole operation (memory image, counters, pointers, PC, flags, port transfers, number of Steps), refz80 in lock-step on every Step, per-Step one-element contract. Non-trivial: every point transfers or compares at least one element (counted)."
 	c.Bound = "parameter lattice " + c.Tier
 	bg := obsBackground(c)
 	runners := make([]*c09Runner, 16)
@@ -425,6 +426,15 @@ func checkC09(c *Ctx) {
 			d, n := r.run(p)
 			evals[wi*8]++
 			steps[wi*8] += int64(n)
+			if d == nil && !p.NoIO && int(p.BC) != 0 && (p.BC < 600 || p.Op&3 >= 2) {
+				// the same whole operation on the package's own device types, unwrapped vs behind opaque wrappers
+				for kind := 0; kind < 4 && d == nil; kind++ {
+					var n2 int
+					d, n2 = c09Concrete(bg, p, kind)
+					evals[wi*8]++
+					steps[wi*8] += int64(n2)
+				}
+			}
 			if d != nil {
 				atomic.StoreInt32(&failedOp[p.Op], 1)
 				c.Report("c09/block:"+p.Enc, i, "", p, cloneStrings(append([]string{fmt.Sprintf("%s BC=%04X HL=%04X DE=%04X A=%02X F=%02X PC=%04X", p.Enc, p.BC, p.HL, p.DE, p.A, p.F, p.PC)}, d...)))
@@ -445,6 +455,19 @@ func checkC09(c *Ctx) {
 	c.States = totSteps
 	c.Transitions = totSteps
 	c.Traces = c.Evaluations
+	{
+		// single elements on the package's own device types, incl. a port device that switches banks by
+		// re-pointing CPU.Memory on every port access (unwrapped vs wrapped must agree)
+		var encs []Enc
+		var ptrs []*Enc
+		for _, op := range ops {
+			encs = append(encs, buildEnc([]uint8{0xED, op}))
+		}
+		for i := range encs {
+			ptrs = append(ptrs, &encs[i])
+		}
+		runConcreteTypes(c, "c09/concrete", ptrs, []uint8{0x00, 0xFF, 0x45, 0xBA})
+	}
 	c.Exhaustive = true
 	c.Set("parameter_points", len(pts))
 	c.Set("steps_executed", totSteps)
@@ -460,7 +483,116 @@ func replayC09(c *Ctx, raw []byte) []string {
 	if err := json.Unmarshal(raw, &p); err != nil {
 		return []string{"bad replay file"}
 	}
-	r := newC09Runner(obs.NewBackground(p.Salt))
+	bg := obs.NewBackground(p.Salt)
+	r := newC09Runner(bg)
 	d, _ := r.run(&p)
+	for kind := 0; kind < 4 && d == nil && !p.NoIO; kind++ {
+		d, _ = c09Concrete(bg, &p, kind)
+	}
 	return cloneStrings(d)
+}
+
+// c09Concrete runs the whole operation twice on the package's own device types - handed to the CPU
+// unwrapped, and behind opaque forwarding wrappers - and compares final state and contents. kind: 0
+// MapMemory, 1..3 DumbMemory of len 65536, 65536+256, 32768.
+func c09Concrete(bg *[65536]uint8, p *c09Params, kind int) ([]string, int) {
+	op := p.Op
+	dec := op&0x08 != 0
+	stepA := func(i int) uint16 {
+		if dec {
+			return uint16(-i)
+		}
+		return uint16(i)
+	}
+	count := int(p.BC)
+	if op&3 >= 2 {
+		count = int(p.BC >> 8)
+		if count == 0 {
+			count = 256
+		}
+	}
+	if op&0x10 == 0 {
+		count = 1
+	}
+	mk := func() (z80.Memory, []uint8, z80.MapMemory) {
+		if kind == 0 {
+			mm := z80.MapMemory{}
+			// destination cells hold older data; every other source cell was never written
+			for i := 0; i < count && i < 600; i++ {
+				mm.Set(p.DE+stepA(i), uint8(0x11+i))
+				if op&3 == 2 {
+					mm.Set(p.HL+stepA(i), uint8(0x21+i))
+				} else if i%2 == 0 {
+					mm.Set(p.HL+stepA(i), uint8(0x80|i))
+				}
+			}
+			mm.Put(p.PC, 0xED, op)
+			return mm, nil, mm
+		}
+		l := []int{0, 65536, 65536 + 256, 32768}[kind]
+		dm := make(z80.DumbMemory, l)
+		copy(dm, bg[:])
+		for i, b := range []uint8{0xED, op} {
+			if a := int(p.PC + uint16(i)); a < l {
+				dm[a] = b
+			}
+		}
+		return dm, dm, nil
+	}
+	memA, bytesA, mapA := mk()
+	memB, bytesB, mapB := mk()
+	ioA, ioB := make(z80.DumbIO, 256), make(z80.DumbIO, 256)
+	for i := range ioA {
+		ioA[i], ioB[i] = uint8(i*3)+p.IOX, uint8(i*3)+p.IOX
+	}
+	a := z80.CPU{Memory: memA, IO: ioA}
+	b := z80.CPU{Memory: &opaqueMem{m: memB, limit: 1 << 30}, IO: &opaqueIO{ioB}}
+	base := baseVector(2)
+	s := base.S
+	s.PC, s.A, s.F = p.PC, p.A, p.F
+	s.B, s.C = uint8(p.BC>>8), uint8(p.BC)
+	s.H, s.L = uint8(p.HL>>8), uint8(p.HL)
+	s.D, s.E = uint8(p.DE>>8), uint8(p.DE)
+	s.SP = 0x7000
+	toCPU(&s, &a)
+	toCPU(&s, &b)
+	steps := 0
+	name := []string{"MapMemory", "DumbMemory len 65536", "DumbMemory len 65536+256", "DumbMemory len 32768"}[kind]
+	for steps < 70000 {
+		pa, pb := c02Step(&a), c02Step(&b)
+		steps++
+		if pa != nil || pb != nil {
+			if fmt.Sprint(pa) != fmt.Sprint(pb) {
+				return []string{fmt.Sprintf("on %s: panic differs at Step %d: unwrapped %v, wrapped %v", name, steps, pa, pb)}, steps
+			}
+			return nil, steps
+		}
+		if a.States != b.States {
+			x, y := fromCPU(&a), fromCPU(&b)
+			return []string{fmt.Sprintf("on %s handed over unwrapped the operation differs from the same device behind an opaque wrapper at Step %d: unwrapped %v ; wrapped %v", name, steps, stateMap(&x), stateMap(&y))}, steps
+		}
+		if b.PC != p.PC || b.Memory.Get(p.PC) != 0xED || b.Memory.Get(p.PC+1) != op {
+			break
+		}
+	}
+	var d []string
+	if bytesA != nil {
+		if i := firstDiff(bytesA, bytesB); i >= 0 {
+			d = append(d, fmt.Sprintf("on %s: memory differs at index %#x after the operation: unwrapped %02X, wrapped %02X", name, i, bytesA[i], bytesB[i]))
+		}
+	} else {
+		if len(mapA) != len(mapB) {
+			d = append(d, fmt.Sprintf("on MapMemory: %d entries unwrapped, %d wrapped", len(mapA), len(mapB)))
+		}
+		for k, v := range mapB {
+			if w, ok := mapA[k]; !ok || w != v {
+				d = append(d, fmt.Sprintf("on MapMemory: cell %04X after the operation: unwrapped %02X (present %v), wrapped %02X", k, w, ok, v))
+				break
+			}
+		}
+	}
+	if i := firstDiff(ioA, ioB); i >= 0 {
+		d = append(d, fmt.Sprintf("on %s: DumbIO differs at port %02X", name, i))
+	}
+	return d, steps
 }
